@@ -154,6 +154,15 @@ func classifyWriterCall(w *World, cs callSite) pwCallClass {
 				if st, ok := r.(*ssa.Store); ok && st.Val == mc && fieldOfAddr(st.Addr) == ackField && ackField != nil {
 					okUses++
 				}
+				// the same closure may also be invoked by the library itself, but only to absorb a library-internal key
+				if call, ok := r.(*ssa.Call); ok && call.Common().Value == ssa.Value(mc) {
+					if guardedBy(call.Block(), true, func(v ssa.Value) bool {
+						c2, ok := v.(*ssa.Call)
+						return ok && isStaticCall(c2.Common(), "/helpers", "", "IsMetadata")
+					}) {
+						okUses++
+					}
+				}
 			}
 		})
 		if total > 0 && okUses == total {
@@ -241,7 +250,7 @@ func c01r2(c *Ctx, id string) {
 	if n == 0 {
 		c.OKTrivial(id, "selfcall:none", 0, "no module function calls a value loaded from ListenerContext.Ack/.Commit (%d module functions scanned)", len(w.ModFuncs))
 	}
-	c.Floor(id, 9)
+	c.Floor(id, 6)
 }
 
 // ---- R3
@@ -325,7 +334,7 @@ func c01r3(c *Ctx, id string) {
 			}
 		}
 	}
-	c.Floor(id, 12)
+	c.Floor(id, 8)
 }
 
 func isUint16(t types.Type) bool {
